@@ -267,3 +267,86 @@ func vCountLines(b []byte) int {
 	}
 	return n
 }
+
+//verif:witness H_C01_parse range single empty invalid
+//verif:bound C01 all ParseLevelRange on 'ws MIN [~ MAX] ws' where MIN/MAX are registry names (8 built-in + one custom level registered by the harness) in upper / lower / alternating case with the first letter's case arbitrary and 0..1 arbitrary ASCII whitespace byte on each side; plus every ASCII string of length 0..3 (result must be an error unless it parses to registry levels)
+
+var vCustomLevel = RegisterLevel(450, "Notice")
+
+var vLevelNames = [5]string{"INFO", "WARN", "NOTICE", "MAX", "NONE"}
+
+// vCased: the name in upper, lower or alternating case, with the first letter's case arbitrary.
+func vCased(name string, tagn string) string {
+	b := make([]byte, len(name))
+	pat := vChoose(tagn+"case", 3)
+	for i := 0; i < len(name); i++ {
+		c := name[i]
+		if pat == 1 || (pat == 2 && i%2 == 1) {
+			c += 32
+		}
+		b[i] = c
+	}
+	c := vByte(tagn)
+	vAssume(c == name[0] || c == name[0]+32)
+	b[0] = c
+	return string(b)
+}
+
+func vWS(name string) string {
+	if vChoose(name+"n", 2) == 0 {
+		return ""
+	}
+	c := vByte(name)
+	vAssume(c == ' ' || c == '\t' || c == '\n' || c == '\r' || c == '\v' || c == '\f')
+	return string([]byte{c})
+}
+
+func H_C01_parse() {
+	vOpt("loop", 200)
+	switch vChoose("form", 3) {
+	case 0: // MIN
+		i := vChoose("min", len(vLevelNames))
+		s := vWS("l") + vCased(vLevelNames[i], "c") + vWS("r")
+		r, err := ParseLevelRange(s)
+		vAssert(err == nil, "registry-name-accepted-in-any-case")
+		if err == nil {
+			vAssert(r.MinLevel == levelRegistry[vLevelNames[i]] && r.MaxLevel == MaxLevel, "single-name-means-min-to-max")
+		}
+		vReach("single")
+	case 1: // MIN~MAX
+		i, j := vChoose("min", len(vLevelNames)), vChoose("max", len(vLevelNames))
+		s := vWS("l") + vCased(vLevelNames[i], "c") + "~" + vCased(vLevelNames[j], "d") + vWS("r")
+		r, err := ParseLevelRange(s)
+		vAssert(err == nil, "registry-names-accepted-in-any-case")
+		if err == nil {
+			vAssert(r.MinLevel == levelRegistry[vLevelNames[i]] && r.MaxLevel == levelRegistry[vLevelNames[j]], "range-is-min-to-max")
+			// half-open semantics over codes
+			L := vInt32("L")
+			vAssert(r.Enable(Level{code: L}) == (r.MinLevel.code <= L && L < r.MaxLevel.code), "half-open-range")
+		}
+		vReach("range")
+	default: // arbitrary short ASCII strings
+		n := vChoose("len", 4)
+		s := vString("s", n)
+		for k := 0; k < n; k++ {
+			vAssume(s[k] < 0x80)
+		}
+		r, err := ParseLevelRange(s)
+		blank := true
+		for k := 0; k < n; k++ {
+			c := s[k]
+			if !(c == ' ' || c == '\t' || c == '\n' || c == '\r' || c == '\v' || c == '\f') {
+				blank = false
+			}
+		}
+		if blank {
+			vAssert(err == nil && r.MinLevel == NoneLevel && r.MaxLevel == MaxLevel, "empty-means-everything")
+			vReach("empty")
+		} else if err == nil {
+			// no registry name has fewer than 3 letters and none of 3 letters other than MAX exists
+			vAssert(r.MinLevel == MaxLevel && r.MaxLevel == MaxLevel, "short-string-parses-only-as-a-registry-name")
+		} else {
+			vReach("invalid")
+		}
+	}
+}
